@@ -14,6 +14,7 @@ type sweep struct {
 	fe       string
 	base     []Call
 	alphabet []Call
+	tail     []Call
 }
 
 var sweeps = []sweep{
@@ -36,6 +37,7 @@ var sweeps = []sweep{
 			{Op: "compile", Trigger: "all"},
 			{Op: "addedge", From: "p", To: "q"},
 		},
+		tail: []Call{{Op: "compile"}, {Op: "addedge", From: "a", To: "end"}, {Op: "addnode", Key: "z", Kind: "lambda"}, {Op: "compile"}},
 	},
 	{
 		fe: "chain",
@@ -48,6 +50,7 @@ var sweeps = []sweep{
 			{Op: "compile"},
 			{Op: "append", Kind: "lambda", NodeKey: "node_1"},
 		},
+		tail: []Call{{Op: "compile"}, {Op: "append", Kind: "lambda"}, {Op: "compile"}},
 	},
 	{
 		fe: "workflow",
@@ -66,6 +69,7 @@ var sweeps = []sweep{
 			{Op: "compile"},
 			{Op: "addinput", To: "end", From: "b", In: "normal", Fields: []string{"B"}},
 		},
+		tail: []Call{{Op: "compile"}, {Op: "addnode", Key: "z", Kind: "lambda"}, {Op: "addinput", To: "z", From: "a", In: "normal"}, {Op: "compile"}},
 	},
 }
 
@@ -151,6 +155,10 @@ func exhaustive(tier string, idx int) *Case {
 				c.Calls = append(c.Calls, cloneCall(s.alphabet[kk%a]))
 				kk /= a
 			}
+			// every swept sequence ends the same way: Compile, one more modification, Compile again
+			for _, b := range s.tail {
+				c.Calls = append(c.Calls, cloneCall(b))
+			}
 			normalize(c)
 			return c
 		}
@@ -161,6 +169,10 @@ func exhaustive(tier string, idx int) *Case {
 // ---------------------------------------------------------------- random constructions
 
 var nodePool = []string{"a", "b", "c", "d", "e", "f", "g"}
+
+func withEnd(keys []string) []string {
+	return append(append([]string(nil), keys...), "end")
+}
 
 func insertAt(calls []Call, pos int, c Call) []Call {
 	if pos < 0 {
@@ -197,7 +209,7 @@ func randOpts(r *lib.Rng, c *Call, fe string) {
 	case fe != "graph" && x < 6:
 		c.Trigger = []string{"any", "all"}[r.Intn(2)]
 	}
-	if r.Chance(1, 6) {
+	if r.Chance(1, 9) {
 		c.MaxSteps = []int{5, 5, 30, -1}[r.Intn(4)]
 	}
 }
@@ -249,7 +261,7 @@ func randGraph(r *lib.Rng, tier string) *Case {
 		maxN = 7
 	}
 	n := r.Range(1, maxN)
-	keys := nodePool[:n]
+	keys := append([]string(nil), nodePool[:n]...)
 	var nodes, links []Call
 	for _, k := range keys {
 		kind := randKind(r)
@@ -295,8 +307,10 @@ func randGraph(r *lib.Rng, tier string) *Case {
 		if len(ends) == 1 && fi+1 < n {
 			ends = append(ends, keys[n-1])
 		}
-		links = append(links, Call{Op: "addbranch", From: from, Ends: ends})
-		hasSucc[from] = true
+		if len(ends) != 1 || r.Chance(1, 20) {
+			links = append(links, Call{Op: "addbranch", From: from, Ends: ends})
+			hasSucc[from] = true
+		}
 	}
 	edge(keys[n-1], "end")
 	for _, k := range keys {
@@ -319,7 +333,7 @@ func randGraph(r *lib.Rng, tier string) *Case {
 		case 0:
 			c.Calls = append(c.Calls, Call{Op: "addnode", Key: "z" + nodePool[r.Intn(3)], Kind: randKind(r)})
 		case 1:
-			c.Calls = append(c.Calls, Call{Op: "addedge", From: keys[r.Intn(n)], To: append(keys, "end")[r.Intn(n+1)]})
+			c.Calls = append(c.Calls, Call{Op: "addedge", From: keys[r.Intn(n)], To: withEnd(keys)[r.Intn(n+1)]})
 		case 2:
 			c.Calls = append(c.Calls, Call{Op: "addbranch", From: keys[r.Intn(n)], Ends: []string{keys[r.Intn(n)], "end"}})
 		case 3:
@@ -619,7 +633,7 @@ func randWorkflow(r *lib.Rng, tier string) *Case {
 		maxN = 6
 	}
 	n := r.Range(1, maxN)
-	keys := nodePool[:n]
+	keys := append([]string(nil), nodePool[:n]...)
 	var groups [][]Call // one group per node: addnode first, then its inputs
 	input := func(to string, avail []string) []Call {
 		var out []Call
@@ -687,7 +701,9 @@ func randWorkflow(r *lib.Rng, tier string) *Case {
 		if len(ends) < 2 && fi+1 < n {
 			ends = append(ends, keys[n-1])
 		}
-		groups = append(groups, []Call{{Op: "addbranch", From: keys[fi], Ends: ends}})
+		if len(ends) != 1 || r.Chance(1, 20) {
+			groups = append(groups, []Call{{Op: "addbranch", From: keys[fi], Ends: ends}})
+		}
 	}
 	// interleave the groups, keeping the order inside a group
 	for len(groups) > 0 {
@@ -712,7 +728,7 @@ func randWorkflow(r *lib.Rng, tier string) *Case {
 		case 0:
 			c.Calls = append(c.Calls, Call{Op: "addnode", Key: "z" + nodePool[r.Intn(3)], Kind: "lambda"})
 		case 1:
-			c.Calls = append(c.Calls, Call{Op: "addinput", To: append(keys, "end")[r.Intn(n+1)], From: keys[r.Intn(n)], In: "dep"})
+			c.Calls = append(c.Calls, Call{Op: "addinput", To: withEnd(keys)[r.Intn(n+1)], From: keys[r.Intn(n)], In: "dep"})
 		case 2:
 			c.Calls = append(c.Calls, Call{Op: "addbranch", From: keys[r.Intn(n)], Ends: []string{keys[r.Intn(n)], "end"}})
 		case 3, 4:
@@ -761,7 +777,7 @@ func injectWorkflow(r *lib.Rng, c *Case, keys []string) {
 	}
 	switch kind {
 	case "input-unknown-from":
-		insInput(Call{Op: "addinput", To: append(keys, "end")[r.Intn(n+1)], From: "nope", In: []string{"normal", "dep", "nodirect"}[r.Intn(3)], Fields: []string{"B"}})
+		insInput(Call{Op: "addinput", To: withEnd(keys)[r.Intn(n+1)], From: "nope", In: []string{"normal", "dep", "nodirect"}[r.Intn(3)], Fields: []string{"B"}})
 	case "input-from-end":
 		insInput(Call{Op: "addinput", To: any(), From: "end", In: "dep"})
 	case "input-to-start-key":
@@ -782,11 +798,11 @@ func injectWorkflow(r *lib.Rng, c *Case, keys []string) {
 			c.Calls = insertAt(c.Calls, r.Range(i+1, len(c.Calls)), d)
 		}
 	case "whole-twice":
-		t := append(keys, "end")[r.Intn(n+1)]
+		t := withEnd(keys)[r.Intn(n+1)]
 		insInput(Call{Op: "addinput", To: t, From: any(), In: "normal"})
 		insInput(Call{Op: "addinput", To: t, From: "start", In: "normal"})
 	case "field-twice":
-		t := append(keys, "end")[r.Intn(n+1)]
+		t := withEnd(keys)[r.Intn(n+1)]
 		insInput(Call{Op: "addinput", To: t, From: any(), In: "normal", Fields: []string{"A"}})
 		insInput(Call{Op: "addinput", To: t, From: "start", In: "normal", Fields: []string{"A"}})
 	case "branch-unknown-end":
